@@ -9,7 +9,7 @@ def Inv (s : St) : Prop :=
   (∀ o, s.m.owner = some o → s.m.count = s.held o ∧ 0 < s.m.count ∧ ∀ t, t ≠ o → s.held t = 0)
 
 theorem inv_init : Inv init := by
-  simp [Inv, init]
+  simp [Inv, init, Nstd.Generated.SyncApi.mutexRecursive]
 
 theorem canLock_iff (s : St) (h : Inv s) (t : Tid) :
     s.m.canLock t = true ↔ (s.m.owner = none ∨ s.m.owner = some t) := by
